@@ -24,7 +24,8 @@
 // a fate per batch position, page caps of batch-1) and genRange (the configured range [start, end) against
 // the source's tree head: end below / at / above the STH size, above what the source holds; sources that
 // serve nothing beyond their STH, whose STH lags behind what get-entries serves, or that grow right after
-// signing the head).
+// signing the head).  A fourth stream (genHigh, high_test.go) moves the migrated range to high leaf indices
+// (around 2^7, 2^8, 2^14, 2^16 and a random base) over a source that serves synthetic entries below it.
 //
 // A run that does not come back is an observation, not a harness failure.  Three watchdogs, from the most
 // to the least informative: (1) the simulated world counts the calls it receives; an unbounded number of
@@ -1745,11 +1746,39 @@ func (n *namer) leaf(l *trillian.LogLeaf) string {
 }
 
 func entryNames(es []*poolEntry) string {
-	var xs []string
-	for _, e := range es {
-		xs = append(xs, e.name)
+	// a long run of one entry (the synthetic part of a big source) is written as `repeat`
+	var parts, lit []string
+	flush := func() {
+		if len(lit) > 0 {
+			parts = append(parts, lib.List(lit))
+			lit = nil
+		}
 	}
-	return lib.List(xs)
+	for i := 0; i < len(es); {
+		j := i
+		for j < len(es) && es[j] == es[i] {
+			j++
+		}
+		if j-i >= 24 {
+			flush()
+			parts = append(parts, fmt.Sprintf("repeat %s (Z.to_nat %s)", es[i].name, lib.Z(int64(j-i))))
+		} else {
+			for k := i; k < j; k++ {
+				lit = append(lit, es[k].name)
+			}
+		}
+		i = j
+	}
+	flush()
+	switch len(parts) {
+	case 0:
+		return "[]"
+	case 1:
+		if strings.HasPrefix(parts[0], "[") {
+			return parts[0]
+		}
+	}
+	return "(" + strings.Join(parts, " ++ ") + ")"
 }
 
 func zmap(m map[int64]int64) string {
@@ -1880,7 +1909,7 @@ Local Open Scope Z_scope.
 			addSha(e.certData)
 		}
 	}
-	for i := 0; i < 160; i++ {
+	for i := 0; i < shaTabIndices; i++ {
 		b := make([]byte, 8)
 		binary.LittleEndian.PutUint64(b, uint64(i))
 		addSha(b)
@@ -1899,8 +1928,59 @@ Local Open Scope Z_scope.
 		return lib.Case{Coq: "", Key: fmt.Sprintf("harness-abort-%d", id), Input: in, Impl: map[string]interface{}{"abort": what},
 			PropOK: false, Note: "harness aborted: " + strings.SplitN(what, "\n", 2)[0], Tags: []string{"harness-abort"}}
 	}
+	// The specifications are generated first, in the order of their streams (a case is a function of the PRNG
+	// state alone, never of an earlier run), and run interleaved: the high-index stream draws from a generator
+	// derived after the others, so that it does not move their cases, and its cases are spread over the shards.
+	type job struct {
+		spec *caseSpec
+		gerr string // the generator panicked
+	}
+	gen := func(id int, f func() *caseSpec) (j job) {
+		defer func() {
+			if p := recover(); p != nil {
+				st := string(debug.Stack())
+				if len(st) > 2500 {
+					st = st[:2500]
+				}
+				j.gerr = fmt.Sprintf("generator, case %d: %v\n%s", id, p, st)
+			}
+		}()
+		return job{spec: f()}
+	}
+	var jobs, high []job
 	for id := 0; id < n; id++ {
-		var spec *caseSpec
+		switch id % 7 {
+		case 2, 5:
+			jobs = append(jobs, gen(id, func() *caseSpec { return genPerBatch(r, pool, id) }))
+		case 6:
+			jobs = append(jobs, gen(id, func() *caseSpec { return genRange(r, pool, id) }))
+		default:
+			jobs = append(jobs, gen(id, func() *caseSpec { return genCase(r, pool, id) }))
+		}
+	}
+	nh := lib.Count(30, 150)
+	if *lib.NFlag > 0 {
+		nh = (*lib.NFlag + 16) / 17
+	}
+	hr := lib.SubRand(r)
+	for k := 0; k < nh; k++ {
+		high = append(high, gen(n+k, func() *caseSpec { return genHigh(hr, pool, k) }))
+	}
+	var order []job
+	every := len(jobs)/len(high) + 1
+	for i, j := range jobs {
+		order = append(order, j)
+		if (i+1)%every == 0 && len(high) > 0 {
+			order, high = append(order, high[0]), high[1:]
+		}
+	}
+	order = append(order, high...)
+	for id, j := range order {
+		spec := j.spec
+		if j.gerr != "" {
+			w.Add(abortCase(id, nil, j.gerr))
+			continue
+		}
 		func() {
 			defer func() {
 				if p := recover(); p != nil {
@@ -1911,14 +1991,6 @@ Local Open Scope Z_scope.
 					w.Add(abortCase(id, spec, fmt.Sprintf("case %d: %v\n%s", id, p, st)))
 				}
 			}()
-			switch id % 7 {
-			case 2, 5:
-				spec = genPerBatch(r, pool, id)
-			case 6:
-				spec = genRange(r, pool, id)
-			default:
-				spec = genCase(r, pool, id)
-			}
 			// watchdog (3), in wall-clock time and outside the bubble: a spin that never calls the simulated
 			// world cannot be ended from inside the process; record the case, write what there is, leave
 			wd := time.AfterFunc(wallLimit, func() {
@@ -1940,6 +2012,37 @@ Local Open Scope Z_scope.
 		}()
 	}
 	w.Close()
+}
+
+// the header's SHA-256 table covers the little-endian spellings of the indices below this; a case that can
+// build leaves at higher indices carries the rows it needs itself (shaArg)
+const shaTabIndices = 160
+
+// shaArg is the SHA-256 oracle handed to the model for one case: the header's table, preceded by the rows
+// for the indices at or above shaTabIndices at which the run can build a leaf (from its resume point - the
+// configured start of a one-shot run, else the destination tree size - to the end of the source).
+func shaArg(spec *caseSpec, s *sim) string {
+	if spec.idf != configpb.IdentityFunction_SHA256_LEAF_INDEX {
+		return "sha_tab"
+	}
+	from := spec.size0
+	if !spec.continuous && spec.start >= 0 {
+		from = spec.start
+	}
+	if from < shaTabIndices {
+		from = shaTabIndices
+	}
+	var rows []string
+	for i := from; i < int64(len(s.src)); i++ {
+		b := make([]byte, 8)
+		binary.LittleEndian.PutUint64(b, uint64(i))
+		h := sha256.Sum256(b)
+		rows = append(rows, lib.Pair(lib.Hex(b), lib.Hex(h[:])))
+	}
+	if len(rows) == 0 {
+		return "sha_tab"
+	}
+	return "(" + lib.List(rows) + " ++ sha_tab)"
 }
 
 // wall-clock limit per case (a case takes milliseconds); VERIF_C20_WALL=<seconds> overrides it (self-tests)
@@ -2057,6 +2160,25 @@ func emit(w *lib.Writer, nm *namer, spec *caseSpec, s *sim, out outcome) {
 		return e != nil && e.buildable && bytes.Equal(l.LeafValue, e.li) && bytes.Equal(l.ExtraData, e.xd) &&
 			bytes.Equal(l.LeafIdentityHash, idHashRef(spec.idf, l.LeafIndex, e))
 	}
+	// which part of a leaf that does not mirror the source differs (for the note)
+	mirrorDiff := func(l *trillian.LogLeaf) string {
+		e := srcAt(l.LeafIndex)
+		switch {
+		case e == nil:
+			return "the source holds no entry there"
+		case !e.buildable:
+			return "the source entry there is malformed"
+		case !bytes.Equal(l.LeafValue, e.li):
+			return "leaf_input differs"
+		case !bytes.Equal(l.ExtraData, e.xd):
+			return "extra_data differs"
+		}
+		what := "SHA-256 of the entry's certificate"
+		if spec.idf == configpb.IdentityFunction_SHA256_LEAF_INDEX {
+			what = "SHA-256 of the index as 8 little-endian octets"
+		}
+		return fmt.Sprintf("identity hash %x, want %x (%v: %s)", l.LeafIdentityHash, idHashRef(spec.idf, l.LeafIndex, e), spec.idf, what)
+	}
 	dest0Mirrors := spec.dest0Kind != "diverged"
 	// the concrete history of a pass, for the notes about tree heads
 	cfgS := fmt.Sprintf("%s, continuous=%v, configured range [%d,%d), batch %d", spec.ep, spec.continuous, spec.start, spec.end, spec.batch)
@@ -2094,7 +2216,7 @@ func emit(w *lib.Writer, nm *namer, spec *caseSpec, s *sim, out outcome) {
 					fail("stream: request start=%d carries index %d at position %d (pass %d)", q.start, l.LeafIndex, i, pi)
 				}
 				if !mirrors(l) {
-					fail("mirror: leaf submitted under index %d is not the source entry of that index (pass %d)", l.LeafIndex, pi)
+					fail("mirror: leaf submitted under index %d is not the source entry of that index (pass %d): %s", l.LeafIndex, pi, mirrorDiff(l))
 				}
 				if l.LeafIndex >= q.sthSize {
 					fail("beyond: index %d submitted, the STH of the pass has size %d (pass %d) [%s]", l.LeafIndex, q.sthSize, pi, history(pi))
@@ -2134,7 +2256,7 @@ func emit(w *lib.Writer, nm *namer, spec *caseSpec, s *sim, out outcome) {
 	sort.Slice(addedIdx, func(i, j int) bool { return addedIdx[i] < addedIdx[j] })
 	for _, i := range addedIdx {
 		if !mirrors(s.dest[i]) {
-			fail("mirror: destination index %d does not hold the source entry", i)
+			fail("mirror: destination index %d does not hold the source entry: %s", i, mirrorDiff(s.dest[i]))
 		}
 		// "nothing beyond the source tree size it verified", on the destination itself: the tree head the
 		// migrator had fetched (and, past a non-empty root, proved consistent) when the index was stored covers it
@@ -2500,8 +2622,8 @@ func emit(w *lib.Writer, nm *namer, spec *caseSpec, s *sim, out outcome) {
 	if mode == "MLoose" { // not determined by the input, not compared
 		finC, dlC, sizeC = "OFErr", "[]", lib.Z(0)
 	}
-	coq := fmt.Sprintf("(CMig %s Ep%s %s %s %s %s %s sha_tab %s %s %s %s)", mode, spec.ep, cfg, entryNames(spec.src0), lib.List(d0), lib.Z(spec.size0),
-		lib.List(scs), finC, lib.List(passes), dlC, sizeC)
+	coq := fmt.Sprintf("(CMig %s Ep%s %s %s %s %s %s %s %s %s %s %s)", mode, spec.ep, cfg, entryNames(spec.src0), lib.List(d0), lib.Z(spec.size0),
+		lib.List(scs), shaArg(spec, s), finC, lib.List(passes), dlC, sizeC)
 	var impl interface{} = map[string]interface{}{"final": out.final, "error": out.errS, "passes": passesJ, "dest_leaves": len(s.dest), "dest_size": s.size, "source_size": len(s.src)}
 	if mode == "MLoose" {
 		impl = map[string]interface{}{"schedule_dependent_after_pass": len(obsPasses) - 1, "passes": passesJ}
